@@ -57,9 +57,34 @@ def description_verbatim(rep):
     n_sites = 0
     for fname, fn in fns.items():
         params = {a.arg for a in fn.args.args + fn.args.kwonlyargs}
-        rebound = {t.id for n in ast.walk(fn) for t in ast.walk(n) if isinstance(n, (ast.Assign, ast.AugAssign, ast.AnnAssign,
-                                                                                      ast.For, ast.With, ast.NamedExpr))
-                   and isinstance(t, ast.Name) and isinstance(t.ctx, ast.Store)}
+        # names that hold a text as somebody wrote it: a parameter, a module's __doc__, or a local every
+        # binding of which is one of these (no call, no operator in between)
+        binds = {}
+        opaque = set()
+        for n in ast.walk(fn):
+            if isinstance(n, ast.Assign):
+                for t in n.targets:
+                    if isinstance(t, ast.Name):
+                        binds.setdefault(t.id, []).append(n.value)
+                    else:
+                        opaque |= {x.id for x in ast.walk(t) if isinstance(x, ast.Name) and isinstance(x.ctx, ast.Store)}
+            elif isinstance(n, (ast.AugAssign, ast.AnnAssign, ast.For, ast.With, ast.NamedExpr)):
+                tg = n.target if hasattr(n, 'target') else None
+                for x in ast.walk(tg) if tg is not None else []:
+                    if isinstance(x, ast.Name) and isinstance(x.ctx, ast.Store):
+                        opaque.add(x.id)
+
+        def verbatim(e, seen=()):
+            if isinstance(e, ast.Attribute) and e.attr == '__doc__':
+                return True
+            if isinstance(e, ast.Name):
+                if e.id in opaque or e.id in seen:
+                    return e.id in seen and e.id not in opaque
+                vals = binds.get(e.id, [])
+                if e.id in params:
+                    return all(verbatim(v, seen + (e.id,)) for v in vals)
+                return bool(vals) and all(verbatim(v, seen + (e.id,)) for v in vals)
+            return False
         for n in ast.walk(fn):
             if not isinstance(n, ast.Call):
                 continue
@@ -68,8 +93,7 @@ def description_verbatim(rep):
                 continue
             n_sites += 1
             a = n.args[0]
-            ok = (isinstance(a, ast.Name) and a.id in params and a.id not in rebound) or \
-                (isinstance(a, ast.Attribute) and a.attr == '__doc__')
+            ok = verbatim(a)
             rep.oblige(ok)
             if not ok:
                 rep.add(Finding('DESC-verbatim', f'sourcer/grammar.py:{fname}', callee,
@@ -78,7 +102,7 @@ def description_verbatim(rep):
                                 f'differently on the same grammar with and without a `grammar <name>` header',
                                 f'sourcer/grammar.py:{fname}'))
     rep.count('description hand-over sites examined', n_sites)
-    rep.floor('description hand-over sites examined', n_sites, 3)
+    rep.floor('description hand-over sites examined', n_sites, 2)
 
 
 def anonymous_name_only(fn, idcall):
